@@ -280,6 +280,22 @@ for _k, _v in ROUND11.items():
     CHECKS[_k]["text"] = CHECKS[_k]["text"] + _v
 
 
+ROUND12 = {
+    "C01": " Producers whose result is a generator, iterator, class, callable, empty or false value; the user's own classes named like stock commands given to add_command.",
+    "C02": " Whole numbers beyond 2^53 cut by a whole threshold; a non-negative whole-number NetCDF read squared and taken off itself.",
+    "C04": " Whole-number fuzzy layers at the ends of their type; finite layers near the end of the double range.",
+    "C05": " Rank-3 fields stored with two axes swapped.",
+    "C08": " Conversions built through the API with 17-digit numbers, written out, loaded and run.",
+    "C09": " A second program with the same result names leaves the first program's results alone.",
+    "C10": " Assignment-looking lines inside multi-line strings; top-down files keep their written order.",
+    "C11": " Histories with parser objects built later.",
+    "C15": " Multi-line DisplayName metadata.",
+    "C16": " A column read twice under two names; models that are not well-typed stop alike on both routes.",
+}
+for _k, _v in ROUND12.items():
+    CHECKS[_k]["text"] = CHECKS[_k]["text"] + _v
+
+
 def main():
     props = [json.loads(l) for l in open(os.path.join(VERIF, "properties.jsonl"))]
     checks = []
